@@ -99,6 +99,8 @@ func (c *Ctx) iterationSkips(li *loopInfo, barrier func(ssa.Instruction) bool) [
 // cell), range elements, and — for locally built maps/slices — the values stored into them.
 func derivesFrom(v ssa.Value, target func(ssa.Value) bool) bool {
 	seen := map[ssa.Value]bool{}
+	callCtx := map[*ssa.Parameter]ssa.Value{}
+	inCall := map[*ssa.Function]bool{}
 	var walk func(v ssa.Value, d int) bool
 	walk = func(v ssa.Value, d int) bool {
 		if v == nil || d > 14 || seen[v] {
@@ -110,9 +112,56 @@ func derivesFrom(v ssa.Value, target func(ssa.Value) bool) bool {
 		}
 		switch x := v.(type) {
 		case *ssa.Parameter:
+			// inside a callee entered through one of its calls below: the parameter is that call's argument
+			if arg, ok := callCtx[x]; ok {
+				return walk(arg, d+1)
+			}
 			// a function with exactly one call site: the parameter IS the argument of that call
 			if arg, ok := paramBinding[x]; ok {
 				return walk(arg, d+1)
+			}
+		case *ssa.Call:
+			// the result of a repo function is what that function returns: follow the returned values, with the
+			// callee's parameters bound to this call's arguments (value flow through helpers)
+			if callee := x.Common().StaticCallee(); callee != nil && len(callee.Blocks) > 0 && !inCall[callee] && d < 10 && isRepoFn(callee) {
+				args := x.Common().Args
+				if len(args) == len(callee.Params) {
+					inCall[callee] = true
+					saved := map[*ssa.Parameter]ssa.Value{}
+					for i, p := range callee.Params {
+						if old, had := callCtx[p]; had {
+							saved[p] = old
+						}
+						callCtx[p] = args[i]
+					}
+					found := false
+					for _, b := range callee.Blocks {
+						if len(b.Instrs) == 0 {
+							continue
+						}
+						if ret, ok := b.Instrs[len(b.Instrs)-1].(*ssa.Return); ok {
+							for _, rv := range retResults(ret) {
+								if seen[rv] {
+									delete(seen, rv)
+								}
+								if walk(rv, d+1) {
+									found = true
+								}
+							}
+						}
+					}
+					for _, p := range callee.Params {
+						if old, had := saved[p]; had {
+							callCtx[p] = old
+						} else {
+							delete(callCtx, p)
+						}
+					}
+					delete(inCall, callee)
+					if found {
+						return true
+					}
+				}
 			}
 		case *ssa.Phi:
 			for _, e := range x.Edges {
@@ -358,11 +407,11 @@ func (c *Ctx) initParamBinding() {
 		if len(sites) != 1 || len(fn.Blocks) == 0 || fn.Parent() != nil {
 			continue
 		}
-		call, ok := sites[0].Instr.(*ssa.Call)
-		if !ok || call.Common().StaticCallee() != fn {
+		cc := callCommon(sites[0].Instr) // a call, a `go` or a `defer`
+		if cc == nil || cc.StaticCallee() != fn {
 			continue
 		}
-		args := call.Common().Args
+		args := cc.Args
 		if len(args) != len(fn.Params) {
 			continue
 		}
@@ -397,4 +446,11 @@ func (c *Ctx) singleSiteHelpers(fn *ssa.Function) []*ssa.Function {
 	}
 	visit(fn, 1)
 	return out
+}
+
+func isRepoFn(f *ssa.Function) bool {
+	for f.Parent() != nil {
+		f = f.Parent()
+	}
+	return f.Pkg != nil && len(f.Pkg.Pkg.Path()) >= len(repoModule) && f.Pkg.Pkg.Path()[:len(repoModule)] == repoModule
 }
